@@ -31,7 +31,7 @@ LEVEL_NOTE = ("Trusted: the probes (a lock-protected table). A callback running 
 RULE = ("case = DCOP + algorithm + run kind + perturbation; non-trivial = >=2 agents each hosting a computation and "
         ">=50 probed callbacks; distinct by sha1(case)")
 ASSUMPTIONS = ["thread mode (all agents in this process)"]
-BUDGET = {"quick": {"workers": 8, "examples": 8, "seconds": 50, "shrink_seconds": 40},
+BUDGET = {"quick": {"workers": 8, "examples": 6, "seconds": 35, "shrink_seconds": 40},
           "thorough": {"workers": 16, "examples": 150, "seconds": 1500, "shrink_seconds": 200}}
 
 ALGOS = {"dpop": ({}, None), "dsa": ({"stop_cycle": 10}, None), "mgm2": ({"stop_cycle": 8}, None),
@@ -54,6 +54,8 @@ def cases(draw):
             "algo": "dsa" if kind == "resilient" else draw(st.sampled_from(sorted(ALGOS))),
             "per_agent": 1 if kind == "resilient" else draw(st.integers(1, 2)),
             "k": draw(st.integers(1, 2)), "leaving": draw(st.integers(0, n - 1)),
+            # the runtime's --delay option (seconds between deliveries of algorithm messages), off in most runs
+            "delay": draw(st.sampled_from([None, None, None, 0.004])),
             "switch_us": draw(st.sampled_from([5, 50, 500, 5000])),
             "naps": draw(st.lists(st.sampled_from([0, 0, 0, 0, 1, 2, 5]), min_size=8, max_size=8)),
             "rng_seed": draw(st.integers(0, 10 ** 6))}
@@ -191,7 +193,7 @@ def run_case(case):
                 try:
                     with under_test():
                         if case["kind"] == "solve":
-                            o = run_local_thread_dcop(algo, cg, distribution, dcop, 10000)
+                            o = run_local_thread_dcop(algo, cg, distribution, dcop, 10000, delay=case.get("delay"))
                             holder["o"] = o
                             o.set_error_handler(lambda e: fatal.append(repr(e)[:300]))
                             phase[0] = "deploy"
